@@ -125,6 +125,17 @@ func (node *Node) processUnconfirmedTx(ctx context.Context, tx handlers.TxData) 
 			return errors.Wrap(err, "fetch outputs")
 		}
 	} else {
+		if txState.State.MerkleProof != nil &&
+			node.blocks.Contains(txState.State.MerkleProof.BlockHeader.BlockHash()) {
+			// Already delivered with its confirmation in a block that is still in the chain, so
+			// this is not a new tx.
+			logger.Info(ctx, "Tx already confirmed : %s", hash)
+			if _, err := node.txs.Remove(ctx, *hash, -1); err != nil {
+				return errors.Wrap(err, "Failed to remove from tx repo")
+			}
+			return nil
+		}
+
 		logger.Info(ctx, "Updating tx state : %s", hash)
 	}
 
